@@ -75,7 +75,7 @@ func runRaceCase(c rcCase, bin, tmp string) map[string]interface{} {
 				}
 				ops.Add(1)
 				guard(func() {
-					switch rng.Intn(11) {
+					switch rng.Intn(12) {
 					case 0:
 						p.Client.Start()
 					case 1:
@@ -121,6 +121,10 @@ func runRaceCase(c rcCase, bin, tmp string) map[string]interface{} {
 					case 10:
 						cp.Ping()
 						stub.Do(vp.Cmd{Op: "echo", S: "x"})
+					case 11:
+						// the plugin writes several chunks' worth to its stdout and stderr while everything else goes on
+						stub.Do(vp.Cmd{Op: "stdio", S: "out", N: 5000, Seed: i})
+						stub.Do(vp.Cmd{Op: "stdio", S: "err", N: 3000, Seed: i})
 					}
 				})
 			}
